@@ -16,7 +16,9 @@ ITEMS = ["part_size_formula", "closing_size_formula", "size None guard", "write 
          "window_search_start", "delimiter prefix", "first_chunk_strip", "fill loop test", "overflow test",
          "base64_char", "max_boundary_len", "reader boundary prefix", "default_max_field_size",
          "default_max_headers", "too_many_headers", "over_client_max", "read loop shape",
-         "base64 token test (case-insensitive)", "nested reader inherits limits"]
+         "base64 token test (case-insensitive)", "nested reader inherits limits", "read_chunk re-read after a partial quartet",
+         "align: short read carries the lot", "readline EOF guard", "readline delimiter only after CRLF",
+         "closing boundary tail shared"]
 
 MP = "aiohttp/multipart.py"
 
@@ -297,6 +299,26 @@ def _reader_items():
     want_al = "if encoding and encoding.lower() == 'base64':\n    chunk = self._align_base64_chunk(chunk, len(carry) + want)"
     if want_al not in txt:
         raise TranslatorError("read_chunk: the base64 test must be `encoding and encoding.lower() == 'base64'` guarding _align_base64_chunk")
+    want_retry = "if not chunk and self._b64_carry and (not self._at_eof):\n    return await self.read_chunk(size)"
+    if want_retry not in txt:
+        raise TranslatorError("read_chunk: the re-read after a partial base64 quartet changed")
+    al = core.find_function(MP, "_align_base64_chunk", cls="BodyPartReader")
+    nocut = [n for n in al.body if isinstance(n, ast.If) and _u(n.test) == "not cut"]
+    if len(nocut) != 1 or [_u(x) for x in nocut[0].body if not (isinstance(x, ast.Expr) and isinstance(x.value, ast.Constant))] != [
+            "if len(chunk) < size:\n    self._b64_carry = chunk + self._b64_carry\n    return b''", "return chunk"]:
+        raise TranslatorError("_align_base64_chunk: the `not cut` branch changed")
+    rl = core.find_function(MP, "readline", cls="BodyPartReader")
+    rtxt = [_u(n) for n in rl.body]
+    for need in ("if not line and self._content.at_eof():\n    self._content_eof += 1\n    if self._content_eof > 2:\n        raise ValueError('Reading after EOF')",
+                 "after_crlf = self._prev_line_crlf", "self._prev_line_crlf = line.endswith(b'\\r\\n')"):
+        if need not in rtxt:
+            raise TranslatorError("BodyPartReader.readline: expected statement missing: " + need.split("\n")[0])
+    branch = [n for n in rl.body if isinstance(n, ast.If) and _u(n.test) == "after_crlf and line.startswith(self._boundary)"]
+    if len(branch) != 1 or "if self._prev_line_crlf and next_line.startswith(self._boundary):\n    line = line[:-2]" not in [_u(x) for x in branch[0].orelse]:
+        raise TranslatorError("BodyPartReader.readline: delimiter tests changed")
+    for fnm in ("_read_until_first_boundary", "_read_boundary"):
+        if "await self._read_closing_boundary_tail()" not in _u(core.find_function(MP, fnm, cls="MultipartReader")):
+            raise TranslatorError(fnm + ": the closing boundary must be followed by _read_closing_boundary_tail()")
     # _get_part_reader: a nested multipart reader is built with all four settings of its parent
     gp = core.find_function(MP, "_get_part_reader", cls="MultipartReader")
     calls = [n for n in ast.walk(gp) if isinstance(n, ast.Call) and any(k.arg == "client_max_size" for k in n.keywords)]
